@@ -20,7 +20,7 @@ PROPERTY = "C12"
 
 META = {
     "bounds": {
-        "quick": "6 template programs x entry point {cli, file API} x the whole option lattice (2 formats x 3 mappings x copier flag, symbolic) x -D value of 4 symbolic hex digits; start address symbolic in the mapping's first banks; symbol file for 3 templates",
+        "quick": "7 template programs (one with a string literal holding a symbolic source character) x entry point {cli, file API} x the whole option lattice (2 formats x 3 mappings x copier flag, symbolic) x -D value of 4 symbolic hex digits; start address symbolic in the mapping's first banks; symbol file for 3 templates",
         "thorough": "10 templates, -D value of 6 hex digits, start address anywhere in the mapping's window",
     },
     "outside": ["argparse itself and the OS process boundary (replayed concretely through `python -m a816.cli`)", "--dump-symbols console output", "programs beyond the templates"],
@@ -41,9 +41,11 @@ TEMPLATES = {
     "reloc": [("star", "p0", "rom"), ("db", "v"), ("at", "r0", "ram"), ("label", "inram"), ("dl", "v"), ("label", "inram2")],
     "if": [("star", "p0", "rom"), ("if", 1, [("db", "v"), ("label", "taken")], [("dw", "v")]), ("if", 0, [("nop",)], [("dl", "v"), ("label", "else_taken")])],
     "empty": [("star", "p0", "rom"), ("label", "only")],
+    # a string literal with a symbolic character in the source file ('?' -> hole): front ends must not rewrite the text
+    "literal": [("star", "p0", "rom"), ("raw", ".ascii 'a?b'", 3), ("label", "after"), ("dw", "v")],
     "nested": [("star", "p0", "rom"), ("block", [("scope", "ns", [("label", "deep"), ("dw", "v")]), ("for", "i", 2, [("block", [("db", "v")])])]), ("label", "end")],
 }
-QUICK = ["data", "instr", "two-blocks", "scopes", "loop", "reloc"]
+QUICK = ["data", "instr", "two-blocks", "scopes", "loop", "reloc", "literal"]
 
 MAPPINGS = ["low", "low2", "high"]
 GEOM = {"low": "low", "low2": "low", "high": "high"}
@@ -114,6 +116,11 @@ def run(spec, cx):
             dig = int(chr(d), 16)
         val = val * 16 + dig
     src = SK.render(prog) + "\n"
+    if "?" in src:
+        # symbolic characters of the source text (anything but quote, backslash and newline)
+        dom = [c for c in range(256) if c not in (10, 0x27, 0x5C)]
+        chars = [cx.char(f"s{i}", dom) if ch == "?" else ord(ch) for i, ch in enumerate(src)]
+        src = cx.string(chars)
     # reference: the in-memory API under the same mapping with v as a constant
     ref_syms = dict(pos_syms)
     ref_syms["v"] = val
